@@ -32,6 +32,7 @@ impl Tier {
 
 thread_local! {
     static LAST_PANIC: std::cell::RefCell<Option<String>> = const { std::cell::RefCell::new(None) };
+    static IN_CATCH: std::cell::Cell<u32> = const { std::cell::Cell::new(0) };
 }
 
 /// Install a panic hook that records the message (with location) instead of printing it.
@@ -45,13 +46,20 @@ pub fn install_quiet_panic_hook() {
             "<non-string panic>".to_string()
         };
         let loc = info.location().map(|l| format!("{}:{}", l.file(), l.line())).unwrap_or_default();
+        if IN_CATCH.with(|c| c.get()) == 0 {
+            // a panic of the harness itself: machinery failure, make it visible
+            eprintln!("ENGINE-PANIC: {msg} @ {loc}");
+        }
         LAST_PANIC.with(|p| *p.borrow_mut() = Some(format!("{msg} @ {loc}")));
     }));
 }
 
 /// Run `f`, turning an unwind into `Err(message @ file:line)`.
 pub fn catch<T>(f: impl FnOnce() -> T) -> Result<T, String> {
-    match catch_unwind(AssertUnwindSafe(f)) {
+    IN_CATCH.with(|c| c.set(c.get() + 1));
+    let r = catch_unwind(AssertUnwindSafe(f));
+    IN_CATCH.with(|c| c.set(c.get() - 1));
+    match r {
         Ok(v) => Ok(v),
         Err(_) => Err(LAST_PANIC.with(|p| p.borrow_mut().take()).unwrap_or_else(|| "panic".into())),
     }
